@@ -61,27 +61,29 @@ def hostText (u : URL) : Text := if u.family = .inet6 then 91 :: u.host ++ [93] 
 
 def hostinfo (u : URL) : Text := hostText u ++ portText u
 
-/-- the port is absent, or a positive number different from the scheme's default -/
+/-- the port is absent, or a positive number different from the scheme's default: it is rendered, and comes back -/
 def PortOK (u : URL) : Prop :=
   u.port = none ∨ ∃ p : Nat, u.port = some (Int.ofNat p) ∧ 0 < p ∧ some p ≠ defaultPort u.scheme
 
-/-- the host is a registered name / IPv4 literal that the idna codec leaves alone, or an IPv6
-    literal that `inet_pton` accepts -/
-inductive HostOK (env : Env) (full : Bool) (u : URL) : Prop where
-  | name (hh : ∀ c ∈ u.host, hostChar c = true)
-      (hfam : u.family = if env.fam4 u.host then .inet else .none)
-      (henc : full = true → env.idnaEnc u.host = some u.host)
-  | v6 (hfam : u.family = .inet6) (hh : ∀ c ∈ u.host, v6Char c = true) (h58 : 58 ∈ u.host)
-      (h6 : env.fam6 u.host = true)
+/-- the port is absent or any natural number (`port = *DIGIT`): zero and the scheme's default port included,
+    which `get_authority` does not render -/
+def PortNat (u : URL) : Prop := u.port = none ∨ ∃ p : Nat, u.port = some (Int.ofNat p)
 
-theorem portText_cases (u : URL) (h : PortOK u) :
-    (u.port = none ∧ portText u = []) ∨
-    (∃ p : Nat, u.port = some (Int.ofNat p) ∧ portText u = 58 :: showNat p) := by
+/-- the port that comes back after rendering and parsing: a zero / default port is not rendered, so it is gone -/
+def portBack (u : URL) : Option Int :=
+  match u.port with
+  | some p => if p ≠ 0 ∧ some p ≠ (defaultPort u.scheme).map Int.ofNat then some p else none
+  | none => none
+
+theorem PortOK.nat {u : URL} (h : PortOK u) : PortNat u := by
+  rcases h with h | ⟨p, hp, _, _⟩
+  · exact Or.inl h
+  · exact Or.inr ⟨p, hp⟩
+
+theorem portBack_of_ok {u : URL} (h : PortOK u) : portBack u = u.port := by
   rcases h with h | ⟨p, hp, hpos, hd⟩
-  · left; simp [portText, h]
-  · right
-    refine ⟨p, hp, ?_⟩
-    unfold portText
+  · simp [portBack, h]
+  · unfold portBack
     rw [hp]
     have h0 : (Int.ofNat p) ≠ 0 := by
       intro h; have : p = 0 := by exact Int.ofNat_eq_zero.mp h
@@ -97,7 +99,27 @@ theorem portText_cases (u : URL) (h : PortOK u) :
         exact hd (by rw [this])
     simp only []
     rw [if_pos ⟨h0, h1⟩]
-    rfl
+
+/-- the host is a registered name / IPv4 literal that the idna codec leaves alone, or an IPv6
+    literal that `inet_pton` accepts -/
+inductive HostOK (env : Env) (full : Bool) (u : URL) : Prop where
+  | name (hh : ∀ c ∈ u.host, hostChar c = true)
+      (hfam : u.family = if env.fam4 u.host then .inet else .none)
+      (henc : full = true → env.idnaEnc u.host = some u.host)
+  | v6 (hfam : u.family = .inet6) (hh : ∀ c ∈ u.host, v6Char c = true) (h58 : 58 ∈ u.host)
+      (h6 : env.fam6 u.host = true)
+
+theorem portText_cases (u : URL) (h : PortNat u) :
+    (portBack u = none ∧ portText u = []) ∨
+    (∃ p : Nat, portBack u = some (Int.ofNat p) ∧ portText u = 58 :: showNat p) := by
+  rcases h with h | ⟨p, hp⟩
+  · left; simp [portText, portBack, h]
+  · unfold portText portBack
+    rw [hp]
+    simp only []
+    split
+    · right; exact ⟨p, rfl, rfl⟩
+    · left; exact ⟨rfl, rfl⟩
 
 theorem authority_any (env : Env) (full : Bool) (u : URL) (hne : u.host ≠ []) (h : HostOK env full u) :
     authority env full u = .ok (uiText env u ++ hostinfo u) := by
@@ -121,11 +143,11 @@ theorem authority_any (env : Env) (full : Bool) (u : URL) (hne : u.host ≠ []) 
 structure HostFacts (env : Env) (u : URL) : Prop where
   ne : hostinfo u ≠ []
   chars : ∀ x ∈ hostinfo u, x ≠ 64 ∧ notIn authStop x = true
-  split : splitHostPort (hostinfo u) = .ok (hostText u, u.port)
+  split : splitHostPort (hostinfo u) = .ok (hostText u, portBack u)
   host : parseHost env (hostText u) = .ok (u.family, u.host)
   ascii : isAsciiText u.host = true
 
-theorem portText_chars {u : URL} (hp : PortOK u) : ∀ x ∈ portText u, x ≠ 64 ∧ notIn authStop x = true := by
+theorem portText_chars {u : URL} (hp : PortNat u) : ∀ x ∈ portText u, x ≠ 64 ∧ notIn authStop x = true := by
   intro x hx
   rcases portText_cases u hp with ⟨_, ht⟩ | ⟨p, _, ht⟩
   · rw [ht] at hx; simp at hx
@@ -137,15 +159,15 @@ theorem portText_chars {u : URL} (hp : PortOK u) : ∀ x ∈ portText u, x ≠ 6
       refine ⟨?_, digit_notIn_authStop hd⟩
       simp [isDigit] at hd; omega
 
-theorem parsePort_portText_tail {u : URL} (hp : PortOK u) :
+theorem parsePort_portText_tail {u : URL} (hp : PortNat u) :
     parsePort (match portText u with
                | 58 :: r => r
-               | r => r) = .ok u.port := by
+               | r => r) = .ok (portBack u) := by
   rcases portText_cases u hp with ⟨hn, ht⟩ | ⟨p, hpp, ht⟩
   · rw [ht, hn]; simp [parsePort, pyInt?, pyNat?]
   · rw [ht, hpp]; simp [parsePort, pyInt_showNat]
 
-theorem hostFacts_name (env : Env) (u : URL) (hne : u.host ≠ []) (hp : PortOK u)
+theorem hostFacts_name (env : Env) (u : URL) (hne : u.host ≠ []) (hp : PortNat u)
     (hh : ∀ c ∈ u.host, hostChar c = true)
     (hfam : u.family = if env.fam4 u.host then .inet else .none) : HostFacts env u := by
   have h6 : u.family ≠ .inet6 := by rw [hfam]; split <;> simp
@@ -245,7 +267,7 @@ theorem mem_after {c x : Nat} {s : Text} (h : x ∈ after c s) : x ∈ s := by
   unfold after at h
   exact (List.dropWhile_sublist _).subset (List.mem_of_mem_tail h)
 
-theorem hostFacts_v6 (env : Env) (u : URL) (hp : PortOK u)
+theorem hostFacts_v6 (env : Env) (u : URL) (hp : PortNat u)
     (hfam : u.family = .inet6) (hh : ∀ c ∈ u.host, v6Char c = true) (h58 : 58 ∈ u.host)
     (h6 : env.fam6 u.host = true) : HostFacts env u := by
   have hht : hostText u = 91 :: u.host ++ [93] := by simp [hostText, hfam]
@@ -287,7 +309,7 @@ theorem hostFacts_v6 (env : Env) (u : URL) (hp : PortOK u)
     intro c hc
     simpa using (v6Char_spec (hh c hc)).1
 
-theorem hostFacts_of_ok (env : Env) (full : Bool) (u : URL) (hne : u.host ≠ []) (hp : PortOK u)
+theorem hostFacts_of_ok (env : Env) (full : Bool) (u : URL) (hne : u.host ≠ []) (hp : PortNat u)
     (h : HostOK env full u) : HostFacts env u := by
   cases h with
   | name hh hfam _ => exact hostFacts_name env u hne hp hh hfam
@@ -301,7 +323,7 @@ theorem parseAuthority_render (env : Env) (u : URL) (hf : HostFacts env u)
     parseAuthority env (uiText env u ++ hostinfo u) =
       .ok ⟨if u.username ≠ [] ∨ u.password ≠ [] then quoteFull userinfoMap env.nfc u.username else [],
            if u.password ≠ [] then quoteFull userinfoMap env.nfc u.password else [],
-           u.family, u.host, u.port⟩ := by
+           u.family, u.host, portBack u⟩ := by
   have hi64 : ∀ x ∈ hostinfo u, x ≠ 64 := fun x hx => (hf.chars x hx).1
   have hne' := hf.ne
   have hqu := quoteFull_stop .userinfo env.nfc u.username hsu
